@@ -159,7 +159,7 @@ Definition adjust (m n : nat) (A : mat) (b : vec) (C : mat) (S : list nat) : res
         let x := vsub x0 (fold_right vadd (repeat 0 n) (map (fun p => vscale (fst p) (snd p)) (combine c G))) in
         let Gm := G in                                     (* d rows of length n = G' *)
         let MiGS := mmul n Mi GS in                        (* d x n *)
-        let GMiGS := mmul n (mtrans d Gm) MiGS in          (* n x n *)
+        let GMiGS := mmul n (mtrans n Gm) MiGS in          (* n x n *)
         let T := map (fun p => vsub (fst p) (snd p)) (combine (ident n) GMiGS) in
         let Qx := mmul n (mmul n T Q0) (mtrans n T) in
         let v := vsub (mvec A x) b in
